@@ -112,7 +112,7 @@ def strategy(tier):
     @st.composite
     def _s(draw):
         pick_gen = draw(st.integers(0, 11))
-        case = (draw(gen.fork_case()) if pick_gen == 0 else draw(gen.star_case()) if pick_gen == 1 else
+        case = (draw(gen.fork_case()) if pick_gen <= 1 else draw(gen.star_case()) if pick_gen == 2 else
                 draw(common.mixed_case(tier, ne_share=3, min_len=2)))
         g = case["graph"]
         n = len(g)
